@@ -347,6 +347,14 @@ func execMsgRoundtrip(o Op) string {
 		}
 	}
 	v1 := verifyMsg(kind, m2, o)
+	// the kinds whose decoders are the library's own (not encoding/json's field merging): reading a
+	// message into an object that has already carried - and been used for - another message gives
+	// what reading it into a new object gives
+	if pr, ok := o["prior"].(map[string]any); ok && err == nil {
+		if r := usedObjectRoundtrip(kind, codec, Op(pr), o, wire, m2, v1); r != "" {
+			return r
+		}
+	}
 	if v0 != orig || v1 != orig {
 		return fmt.Sprintf("changed %s orig=%s before=%s after=%s", same, orig, v0, v1)
 	}
@@ -358,11 +366,67 @@ func execMsgRoundtrip(o Op) string {
 	return orig + " " + same
 }
 
+func usedObjectRoundtrip(kind, codec string, prior, o Op, wire []byte, fresh any, vfresh string) (res string) {
+	defer func() {
+		if r := recover(); r != nil {
+			res = fmt.Sprintf("used-object: panic %v", r)
+		}
+	}()
+	used := newMsg(kind)
+	var err error
+	switch codec {
+	case "json":
+		var w0 []byte
+		if w0, err = json.Marshal(fromPayload(kind, prior)); err == nil {
+			err = json.Unmarshal(w0, used)
+		}
+	case "cbor":
+		var w0 []byte
+		if w0, err = cbor.Marshal(fromPayload(kind, prior), cbor.EncOptions{}); err == nil {
+			err = cbor.Unmarshal(w0, used)
+		}
+	}
+	if err != nil {
+		return "" // the earlier message does not decode: nothing to reuse
+	}
+	verifyMsg(kind, used, prior) // use it: whatever the library caches is now filled
+	if u, ok := used.(*revocation.Update); ok && len(u.Events) > 0 {
+		u.Product(u.Events[0].Index)
+	}
+	switch codec {
+	case "json":
+		err = json.Unmarshal(wire, used)
+	case "cbor":
+		err = cbor.Unmarshal(wire, used)
+	}
+	if err != nil {
+		return "used-object: decode error " + err.Error()
+	}
+	if v := verifyMsg(kind, used, o); v != vfresh {
+		return fmt.Sprintf("used-object: verdict %s, new object: %s", v, vfresh)
+	}
+	if vfresh == "accept" {
+		j2, e2 := json.Marshal(fresh)
+		j3, e3 := json.Marshal(used)
+		if e2 != nil || e3 != nil || !jsonEqualNorm(j2, j3) || !eventsEqual(events(fresh), events(used)) {
+			return "used-object: content differs from new object"
+		}
+		if u, ok := used.(*revocation.Update); ok && len(u.Events) > 0 {
+			from := u.Events[0].Index
+			if !intEq(u.Product(from), fresh.(*revocation.Update).Product(from)) {
+				return "used-object: product of the events differs from new object"
+			}
+		}
+	}
+	return ""
+}
+
 // ---------------------------------------------------------------- generator
 
 type msgCtx struct {
 	g    *Rng
 	emit func(Op)
+	prev map[string]Op // per kind and codec: the message emitted before (read first into the reused object)
 }
 
 func jsonStr(v any) string { return string(must(json.Marshal(v))) }
@@ -399,6 +463,19 @@ func (c *msgCtx) out(kind, class string, codecs []string, obj any, extra Op) {
 			o2[k] = v
 		}
 		o2["class"], o2["codec"], o2["orig"], o2["label"], o2["key"] = kind+"/"+class+"/"+codec, codec, orig, orig, key
+		if kind == "update" || kind == "eventlist" {
+			if c.prev == nil {
+				c.prev = map[string]Op{}
+			}
+			if pr, ok := c.prev[kind+codec]; ok {
+				o2["prior"] = map[string]any(pr)
+			}
+			pr := Op{}
+			for k, v := range o {
+				pr[k] = v
+			}
+			c.prev[kind+codec] = pr
+		}
 		c.emit(o2)
 	}
 }
@@ -492,7 +569,7 @@ func cloneViaJSON[T any](v *T) *T {
 func inc(x *big.Int) *big.Int { return new(big.Int).Add(x, bi(1)) }
 
 func genMsgs(g *Rng, thorough bool, emit func(Op)) {
-	c := &msgCtx{g, emit}
+	c := &msgCtx{g: g, emit: emit}
 	kr := fixedKey("k1024a", true) // with revocation key material
 	kb := fixedKey("k1024b", false)
 	emit(declKey(kr))
